@@ -15,4 +15,4 @@ if git diff --quiet -- "$file"; then echo "MUTATION DID NOT APPLY"; exit 2; fi
 git --no-pager diff -U0 -- "$file" | tail -n +5
 (cd /verif && VERIF_REPO="$wt" ./check "$id" "$@" | grep -v "^built" | cut -c1-700 | tail -12; echo "rc=${PIPESTATUS[0]}")
 git checkout -- "$file"
-rm -rf /verif/replays/"$id"
+rm -rf /verif/.build/replays-alt/"$id"
